@@ -32,6 +32,12 @@ CLAIMED = {
     note="Trusted: A-SORT, Record.copy, C06's contract for simplify_ast, induction rule for the loop nest. lower_node/get_statements_in_ast only in the bounded stand-in (exhaustive phases <= 3-4 statements in all storage orders + random tail).",
     technique="contract-based deductive verification: ast->z3 VC generation, DFS invariant with ghost positions, CPS trace spec",
     ref="6/C05"),
+
+ "C08": dict(cat="proof",
+    text="Both sides are under contract: the get_read_variables / get_written_variables methods along the class chains of Assign, AssignFunctionCall, YieldState (super() by contract, MRO computed from the source) are proved to cover rhs, guard, lhs subscripts, loop bounds, call arguments, yielded value and time; the interpreter's evaluate_condition / exec_Assign (with nested generator implement_loops) / exec_AssignFunctionCall / exec_YieldState are executed with a recording context and on every normal and exceptional exit the ghost read/write sets are proved to lie inside the declared sets (loop counters aside). All statements and states.",
+    note="Relative to A-DEP / A-EVAL (pymbolic mappers touch exactly vars(e)); aliasing of array values not modelled; identity-map clause decided under C16's map_expressions contracts. Bounded stand-in (labelled): instrumented context on ~14k real statements.",
+    technique="contract-based deductive verification: ast->z3 VC generation with ghost read/write sets, modular super() contracts along the MRO",
+    ref="6/C08"),
 }
 
 NOT_APPLICABLE = {
